@@ -146,7 +146,10 @@ type mwArea struct {
 	Why   map[string]int `json:"failed_checks,omitempty"`
 	First map[string]any `json:"first_failure,omitempty"`
 	Notes map[string]any `json:"notes,omitempty"`
-	mu    sync.Mutex
+	// requests without an inbound trace id: how many the sampler let through / kept out
+	Sampled   int64 `json:"sampled"`
+	Unsampled int64 `json:"unsampled"`
+	mu        sync.Mutex
 }
 
 func (a *mwArea) fail(why string, detail map[string]any) {
@@ -207,10 +210,12 @@ func (c *chain) exchange(a *mwArea, u *ids, g, i int) {
 			a.fail("trace/parent span are not the inbound ones", d(tr+" "+pa, inTrace+" "+inParent))
 		}
 	case tr == "":
+		atomic.AddInt64(&a.Unsampled, 1)
 		if c.traced == 1 {
 			a.fail("request not sampled although the sampler must sample everything", d("", "a trace id"))
 		}
 	default:
+		atomic.AddInt64(&a.Sampled, 1)
 		if c.traced == 0 {
 			a.fail("request sampled although the sampler must sample nothing", d(tr, ""))
 		}
@@ -332,10 +337,12 @@ func grpcExchange(a *mwArea, u *ids, name string, stream, trust bool, traced int
 			a.fail("trace/parent span are not the inbound ones", d(tr+" "+pa, inTrace+" "+inParent))
 		}
 	case tr == "":
+		atomic.AddInt64(&a.Unsampled, 1)
 		if traced == 1 {
 			a.fail("request not sampled although the sampler must sample everything", d("", "a trace id"))
 		}
 	default:
+		atomic.AddInt64(&a.Sampled, 1)
 		if traced == 0 {
 			a.fail("request sampled although the sampler must sample nothing", d(tr, ""))
 		}
